@@ -22,6 +22,8 @@ fn shell_line(r : &XRule, k : usize) -> String
     let mut s = String::new();
     s.push_str(&format!("{{ printf 'B'; {} }} > {}.b; ", r.src.iter().map(|p| format!("printf '\\037'; cat {} 2>/dev/null || printf 'MISSING';", sq(p))).collect::<Vec<_>>().join(" "), x));
     let mut work : Vec<String> = r.src.iter().map(|p| format!("test -f {}", sq(p))).collect();
+    /* like vcmd: nothing is written unless every target's directory is there */
+    for t in r.tg.iter() { if let Some(i) = t.rfind('/') { work.push(format!("test -d {}", sq(&t[..i]))); } }
     if r.kind == "fail" { work.push("false".to_string()); }
     else
     {
@@ -36,11 +38,13 @@ fn shell_line(r : &XRule, k : usize) -> String
                 _ => format!("{{ printf '%s' {}; {} printf ']'; }}", sq(&format!("F({},{})[", r.id, i + 1)),
                         r.src.iter().enumerate().map(|(j, p)| format!("{}cat {};", if j > 0 { "printf '%s' '|'; " } else { "" }, sq(p))).collect::<Vec<_>>().join(" ")),
             };
+            /* a target in the rule's mask also depends on the undeclared input (the file .env, which is no source of any rule) */
+            let gen = if r.mask.contains(&(i + 1)) { format!("{{ {}; printf '@'; cat .env; }}", gen) } else { gen };
             work.push(format!("{} > {}", gen, sq(t)));
             if r.x { work.push(format!("chmod +x {}", sq(t))); }
         }
     }
-    s.push_str(&format!("( {} ); rc=$?; ", work.join(" && ")));
+    s.push_str(&format!("( {} ) 2>/dev/null; rc=$?; ", work.join(" && ")));
     s.push_str(&format!("{{ printf 'E\\037%s' \"$rc\"; {} }} > {}.e; exit $rc", r.tg.iter().map(|p| format!("printf '\\037'; cat {} 2>/dev/null || printf 'MISSING';", sq(p))).collect::<Vec<_>>().join(" "), x));
     s
 }
@@ -58,7 +62,7 @@ fn rid(r : &XRule, k : usize) -> String { format!("R{{{}}}{{{}}}{{{}}}", r.tg.jo
 fn rules_json(rules : &Vec<XRule>) -> Value
 {
     Value::Array(rules.iter().enumerate().map(|(k, r)| json!({"tg" : r.tg, "src" : r.src, "cl" : command_lines(r, k), "kind" : r.kind, "id" : r.id,
-        "omit" : r.omit, "mask" : [], "x" : r.x, "pf" : r.pf})).collect())
+        "omit" : r.omit, "mask" : r.mask, "x" : r.x, "pf" : r.pf})).collect())
 }
 
 fn render(rules : &Vec<XRule>) -> String
@@ -86,6 +90,8 @@ struct RScn
     dict : BTreeMap<String, String>, rids : BTreeMap<String, String>, shs : BTreeMap<String, String>,
     out : Vec<Value>,
     run_toggle : bool,
+    quiet : bool,                    // the twin of a scenario: same history, file-state table erased before every build; nothing is logged
+    removed : BTreeSet<String>,      // top-level workspace directories the user has removed
 }
 
 fn pause() { std::thread::sleep(std::time::Duration::from_millis(9)); }
@@ -161,10 +167,11 @@ impl RScn
         if let Ok(d) = std::fs::read_dir(&self.dir) { for e in d.filter_map(|e| e.ok())
         {
             let n = e.file_name().to_string_lossy().to_string();
-            if n != ".ruler" && n != "build.rules" && !self.ord.contains(&n) && !e.path().is_dir() { other.push(n); }
+            if n != ".ruler" && n != ".env" && n != "build.rules" && !self.ord.contains(&n) && !e.path().is_dir() { other.push(n); }
         } }
+        let nodir : Vec<String> = self.ord.iter().filter(|p| match p.rfind('/') { Some(i) => !self.dir.join(&p[..i]).is_dir(), None => false }).cloned().collect();
         json!({"ws" : ws, "cache" : cache, "hist" : hist, "fstab" : fstab,
-               "rdir" : {"root" : rd.is_dir(), "cache" : rd.join("cache").is_dir(), "hist" : rd.join("history").is_dir(), "tab" : tab, "htorn" : htorn}, "other" : other})
+               "rdir" : {"root" : rd.is_dir(), "cache" : rd.join("cache").is_dir(), "hist" : rd.join("history").is_dir(), "tab" : tab, "htorn" : htorn, "nodir" : nodir}, "other" : other})
     }
 
     fn set_rules(&mut self, rules : &Vec<XRule>)
@@ -174,7 +181,7 @@ impl RScn
         for (k, r) in self.rules.clone().iter().enumerate()
         {
             self.rids.insert(rule_ticket(&r.tg, &r.src, &command_lines(r, k)), rid(r, k));
-            for p in r.tg.iter().chain(r.src.iter()) { if let Some(i) = p.rfind('/') { let _ = std::fs::create_dir_all(self.dir.join(&p[..i])); } }
+            for p in r.tg.iter().chain(r.src.iter()) { if let Some(i) = p.rfind('/') { if !self.removed.contains(p.split('/').next().unwrap()) { let _ = std::fs::create_dir_all(self.dir.join(&p[..i])); } } }
         }
         std::fs::write(self.dir.join("build.rules"), render(&self.rules)).unwrap();
         let js = rules_json(&self.rules);
@@ -184,15 +191,48 @@ impl RScn
 
     fn edit(&mut self, p : &str, c : &str)
     {
-        std::fs::write(self.dir.join(p), c).unwrap();
+        if std::fs::write(self.dir.join(p), c).is_err() { return; }
         self.learn(c.as_bytes());
         self.out.push(json!({"a" : "edit", "p" : p, "c" : c}));
         pause();
     }
 
-    fn invoke(&mut self, is_build : bool, goal : &str)
+    fn paths_in(&self, d : &str) -> Vec<String> { let pre = format!("{}/", d); self.ord.iter().filter(|p| p.starts_with(&pre)).cloned().collect() }
+    fn top_dirs(&self) -> Vec<String> { let mut v : Vec<String> = self.ord.iter().filter(|p| p.contains('/')).map(|p| p.split('/').next().unwrap().to_string()).collect(); v.dedup(); v }
+    fn rmdir(&mut self, d : &str)
     {
-        let st = self.state();
+        let ps = self.paths_in(d);
+        let _ = std::fs::remove_dir_all(self.dir.join(d));
+        self.removed.insert(d.to_string());
+        self.out.push(json!({"a" : "rmdir", "d" : d, "ps" : ps}));
+        pause();
+    }
+    fn mkdir(&mut self, d : &str)
+    {
+        let ps = self.paths_in(d);
+        for p in ps.iter() { if let Some(i) = p.rfind('/') { let _ = std::fs::create_dir_all(self.dir.join(&p[..i])); } }
+        self.removed.remove(d);
+        self.out.push(json!({"a" : "mkdir", "d" : d, "ps" : ps}));
+        pause();
+    }
+    fn set_env(&mut self, v : &str)
+    {
+        std::fs::write(self.dir.join(".env"), v).unwrap();
+        self.out.push(json!({"a" : "env", "v" : v}));
+        pause();
+    }
+    fn ws_labels(&mut self) -> Value
+    {
+        let mut m = Map::new();
+        for p in self.ord.clone().iter() { if let Ok(b) = std::fs::read(self.dir.join(p)) { let l = self.learn(&b); m.insert(p.clone(), Value::String(l)); } }
+        Value::Object(m)
+    }
+
+    /*  sink 0: ruler's standard output is captured; 1: it is a device that cannot be written (/dev/full) */
+    fn invoke(&mut self, is_build : bool, goal : &str, twin : Option<Value>, sink : usize) -> Value
+    {
+        if self.quiet && is_build { let _ = std::fs::remove_file(self.dir.join(".ruler").join("current_file_states")); }
+        let st = if self.quiet { Value::Null } else { self.state() };
         self.out.push(json!({"a" : if is_build { "build" } else { "clean" }, "g" : goal, "state" : st}));
         let _ = std::fs::remove_dir_all(&self.xlog); std::fs::create_dir_all(&self.xlog).unwrap();
         /* `ruler run <target>` builds the target like `ruler build <target>` and then tries to execute it (the outcome of that execution
@@ -201,8 +241,25 @@ impl RScn
         self.run_toggle = !self.run_toggle;
         let mut args = vec![if use_run { "run" } else if is_build { "build" } else { "clean" }];
         if goal != "" { args.push(goal); }
-        let o = Command::new(&self.bin).args(&args).current_dir(&self.dir).env("RULER_XLOG", &self.xlog).output().expect("run ruler");
-        let (so, se) = (String::from_utf8_lossy(&o.stdout).to_string(), String::from_utf8_lossy(&o.stderr).to_string());
+        let (fo, fe) = (self.xlog.with_extension("stdout"), self.xlog.with_extension("stderr"));
+        let stdout = if sink == 1 { std::fs::OpenOptions::new().write(true).open("/dev/full").expect("/dev/full") } else { std::fs::File::create(&fo).expect("stdout file") };
+        let mut child = Command::new(&self.bin).args(&args).current_dir(&self.dir).env("RULER_XLOG", &self.xlog)
+            .stdin(std::process::Stdio::null()).stdout(stdout).stderr(std::fs::File::create(&fe).expect("stderr file")).spawn().expect("run ruler");
+        /* an invocation that does not return within 30 s (they take milliseconds) is ended and recorded as hanging */
+        let t0 = std::time::Instant::now();
+        let mut hung = false;
+        let status = loop
+        {
+            match child.try_wait().expect("wait")
+            {
+                Some(st) => break Some(st),
+                None => { if t0.elapsed().as_secs() >= 30 { let _ = child.kill(); let _ = child.wait(); hung = true; break None; } std::thread::sleep(std::time::Duration::from_millis(2)); },
+            }
+        };
+        let code = status.and_then(|s| s.code());
+        let so = if sink == 1 { String::new() } else { String::from_utf8_lossy(&std::fs::read(&fo).unwrap_or_default()).to_string() };
+        let se = String::from_utf8_lossy(&std::fs::read(&fe).unwrap_or_default()).to_string();
+        let _ = std::fs::remove_file(&fo); let _ = std::fs::remove_file(&fe);
         /* executions logged by the commands themselves */
         let mut recs : BTreeMap<String, (Vec<String>, Vec<String>)> = BTreeMap::new();
         if let Ok(d) = std::fs::read_dir(&self.xlog) { for e in d.filter_map(|e| e.ok())
@@ -239,7 +296,8 @@ impl RScn
             else { se.trim().to_string() };
         let path_rid = |rules : &Vec<XRule>, p : &str| -> String { for (k, r) in rules.iter().enumerate() { if r.tg.iter().any(|t| t == p) { return rid(r, k); } } "".to_string() };
         let verdict =
-        if o.status.code() == Some(101) || se_t.contains("panicked") { "panic".to_string() }
+        if hung { "hang".to_string() }
+        else if code == Some(101) || se_t.contains("panicked") { "panic".to_string() }
         else if se_t == "" { if is_build { "ok".to_string() } else { "cleaned".to_string() } }
         else if se_t.starts_with("Dependence search failed") { "err:TopologicalSortFailed".to_string() }
         else if se_t.starts_with("Error history file not found") { "err:FailedToReadCurrentFileStates".to_string() }
@@ -261,16 +319,26 @@ impl RScn
                     while i < lines.len() && !lines[i].starts_with("This might mean") { ps.push(lines[i].to_string()); i += 1; }
                     errs.push(json!(["Contradiction", ps.join(","), path_rid(&self.rules, &ps.get(0).cloned().unwrap_or_default())]));
                 }
-                else if l.starts_with("Error resolving rule") { errs.push(json!(["ResolutionError", l, ""])); }
+                else if l.starts_with("Error resolving rule")
+                {
+                    let k = if l.contains("System error while attempting to use cache") { "CacheMalfunction" } else if l.contains("Cache directory missing") { "CacheDirectoryMissing" }
+                            else if l.contains("Ticket alignment error") { "TicketAlignmentError" } else if l.contains("attempting to read file from local cache") { "FileNotAvailableToCache" } else { l };
+                    errs.push(json!(["ResolutionError", k, ""]));
+                }
                 else if l.trim() != "" { errs.push(json!(["Other", l, ""])); }
                 i += 1;
             }
             "fail".to_string()
         };
+        if self.quiet { pause(); return json!({"verdict" : verdict, "ws" : self.ws_labels()}); }
         let st = self.state();
-        self.out.push(json!({"a" : "ret", "kind" : if is_build { "build" } else { "clean" }, "verdict" : verdict, "errs" : errs, "stat" : stat,
-            "touched" : [], "overw" : [], "panics" : [], "notenabled" : 0, "stderr" : se_t.chars().take(300).collect::<String>(), "state" : st}));
+        let mut ret = json!({"a" : "ret", "kind" : if is_build { "build" } else { "clean" }, "verdict" : verdict, "errs" : errs, "stat" : stat,
+            "touched" : [], "overw" : [], "panics" : [], "notenabled" : 0, "stderr" : se_t.chars().take(300).collect::<String>(), "state" : st});
+        if sink == 1 { ret["nostat"] = json!(true); }
+        if let Some(t) = twin { ret["twin"] = t; }
+        self.out.push(ret);
         pause();
+        Value::Null
     }
 }
 
@@ -286,47 +354,72 @@ fn rank_stamps(events : &mut Vec<Value>)
     for e in events.iter_mut() { if let Some(s) = e.get_mut("state") { apply(s, &rank); } }
 }
 
-pub fn real_histories(bin : &str, base : &str, n : usize, seed : u64) -> Vec<Value>
+pub fn real_histories(bin : &str, base : &str, n : usize, seed : u64, prof : &str) -> Vec<Value>
 {
     let mut all = vec![];
+    let with_env = prof == "realenv";
     for k in 0..n
     {
         let mut rng = Rng::new(seed.wrapping_mul(1000003).wrapping_add(k as u64));
-        let mut pr = profile("core"); pr.max_rules = 4; pr.max_steps = 8;
+        let mut pr = profile(if with_env { "env" } else { "core" }); pr.max_rules = 4; pr.max_steps = 8;
         let (mut rules, leaves) = gen_rules(&mut rng, &pr);
-        for r in rules.iter_mut() { if r.kind == "kill" { r.kind = "fail".to_string(); } r.pk = false; r.mask.clear(); r.layout = 0; r.flat = true; }
+        for r in rules.iter_mut() { if r.kind == "kill" { r.kind = "fail".to_string(); } r.pk = false; if !with_env { r.mask.clear(); } r.layout = 0; r.flat = true; }
         let targets : Vec<String> = rules.iter().flat_map(|r| r.tg.clone()).collect();
         let mut ord : BTreeSet<String> = BTreeSet::new();
         for r in rules.iter() { for p in r.tg.iter().chain(r.src.iter()) { ord.insert(p.clone()); } }
         for l in leaves.iter() { ord.insert(l.clone()); }
         ord.insert("zz".to_string());
-        let dir = Path::new(base).join(format!("obs{}", k));
-        let _ = std::fs::remove_dir_all(&dir); std::fs::create_dir_all(&dir).unwrap();
-        let mut scn = RScn{dir : dir.clone(), xlog : Path::new(base).join(format!("obs{}.xlog", k)), bin : bin.to_string(), rules : vec![], ord : ord.into_iter().collect(),
-            dict : BTreeMap::new(), rids : BTreeMap::new(), shs : BTreeMap::new(), out : vec![], run_toggle : false};
-        scn.learn(b"");
+        let ordv : Vec<String> = ord.into_iter().collect();
+        let mk = |tag : &str, quiet : bool| -> RScn
+        {
+            let dir = Path::new(base).join(format!("obs{}{}", k, tag));
+            let _ = std::fs::remove_dir_all(&dir); std::fs::create_dir_all(&dir).unwrap();
+            RScn{dir : dir, xlog : Path::new(base).join(format!("obs{}{}.xlog", k, tag)), bin : bin.to_string(), rules : vec![], ord : ordv.clone(),
+                 dict : BTreeMap::new(), rids : BTreeMap::new(), shs : BTreeMap::new(), out : vec![], run_toggle : false, quiet : quiet, removed : BTreeSet::new()}
+        };
+        /* the twin lives the same history with the file-state table erased before every build (C18) */
+        let mut scn = mk("", false);
+        let mut tw = mk("t", true);
+        scn.learn(b""); tw.learn(b"");
         scn.out.push(json!({"a" : "reset", "sc" : format!("real{}.{}", seed, k), "ord" : scn.ord, "clock" : "distinct", "real" : true}));
-        scn.set_rules(&rules);
-        for l in &leaves { scn.edit(l, "S0"); }
-        if rng.chance(1, 2) { scn.edit("zz", "B0"); }
+        for s in [&mut scn, &mut tw] { s.set_env("e0"); s.out.pop(); }      /* the model starts with this undeclared input */
+        for s in [&mut scn, &mut tw] { s.set_rules(&rules); }
+        for l in &leaves { for s in [&mut scn, &mut tw] { s.edit(l, "S0"); } }
+        if rng.chance(1, 2) { for s in [&mut scn, &mut tw] { s.edit("zz", "B0"); } }
         let steps = 4 + rng.below(7);
+        let mut invoke = |scn : &mut RScn, tw : &mut RScn, rng : &mut Rng, is_build : bool, g : &str|
+        {
+            let sink = if rng.chance(1, 8) { 1 } else { 0 };
+            let t = tw.invoke(is_build, g, None, 0);
+            scn.invoke(is_build, g, if is_build { Some(t) } else { None }, sink);
+        };
         for _ in 0..steps
         {
-            match rng.below(12)
+            match rng.below(14)
             {
-                0..=3 => { let g = match rng.below(10) { 0..=5 => "".to_string(), 6 => "nosuch".to_string(), _ => targets[rng.below(targets.len())].clone() }; scn.invoke(true, &g); },
-                4 | 5 => { let g = if rng.chance(1, 2) { "".to_string() } else { targets[rng.below(targets.len())].clone() }; scn.invoke(false, &g); },
-                6 | 7 => { let l = &leaves[rng.below(leaves.len())]; let c = format!("S{}", rng.below(3)); scn.edit(l, &c); },
-                8 => { let t = &targets[rng.below(targets.len())]; if scn.dir.join(t).is_file() { let c = format!("J{}", rng.below(3)); scn.edit(t, &c); } },
-                9 => { let t = &targets[rng.below(targets.len())]; if scn.dir.join(t).is_file() { std::fs::remove_file(scn.dir.join(t)).unwrap(); scn.out.push(json!({"a" : "del", "p" : t})); pause(); } },
-                10 => { let k2 = rng.below(rules.len()); rules[k2].id = format!("c{}v{}", k2, rng.below(3)); if rng.chance(1, 3) { rules[k2].rev = !rules[k2].rev; } scn.set_rules(&rules); },
-                _ => { let t = &targets[rng.below(targets.len())]; if scn.dir.join("zz").is_file() { std::fs::rename(scn.dir.join("zz"), scn.dir.join(t)).unwrap(); scn.out.push(json!({"a" : "mv", "p" : "zz", "q" : t})); pause(); } },
+                0..=3 => { let g = match rng.below(10) { 0..=5 => "".to_string(), 6 => "nosuch".to_string(), _ => targets[rng.below(targets.len())].clone() }; invoke(&mut scn, &mut tw, &mut rng, true, &g); },
+                4 | 5 => { let g = if rng.chance(1, 2) { "".to_string() } else { targets[rng.below(targets.len())].clone() }; invoke(&mut scn, &mut tw, &mut rng, false, &g); },
+                6 | 7 => { let l = &leaves[rng.below(leaves.len())]; let c = format!("S{}", rng.below(3)); for s in [&mut scn, &mut tw] { s.edit(l, &c); } },
+                8 => { let t = &targets[rng.below(targets.len())]; let c = format!("J{}", rng.below(3)); if scn.dir.join(t).is_file() { scn.edit(t, &c); } if tw.dir.join(t).is_file() { tw.edit(t, &c); } },
+                9 => { let t = &targets[rng.below(targets.len())]; for s in [&mut scn, &mut tw] { if s.dir.join(t).is_file() { std::fs::remove_file(s.dir.join(t)).unwrap(); s.out.push(json!({"a" : "del", "p" : t})); pause(); } } },
+                10 => { let k2 = rng.below(rules.len()); rules[k2].id = format!("c{}v{}", k2, rng.below(3)); if rng.chance(1, 3) { rules[k2].rev = !rules[k2].rev; } for s in [&mut scn, &mut tw] { s.set_rules(&rules); } },
+                11 => { let t = &targets[rng.below(targets.len())]; for s in [&mut scn, &mut tw] { if s.dir.join("zz").is_file() && std::fs::rename(s.dir.join("zz"), s.dir.join(t)).is_ok() { s.out.push(json!({"a" : "mv", "p" : "zz", "q" : t})); pause(); } } },
+                12 =>
+                {   /* a workspace directory is removed with everything in it, or made again */
+                    let dirs = scn.top_dirs();
+                    if dirs.len() > 0
+                    {
+                        let d = dirs[rng.below(dirs.len())].clone();
+                        if scn.removed.contains(&d) { for s in [&mut scn, &mut tw] { s.mkdir(&d); } } else { for s in [&mut scn, &mut tw] { s.rmdir(&d); } }
+                    }
+                },
+                _ => { if with_env { let v = format!("e{}", rng.below(2)); for s in [&mut scn, &mut tw] { s.set_env(&v); } } },
             }
         }
-        scn.invoke(true, "");
+        invoke(&mut scn, &mut tw, &mut rng, true, "");
         rank_stamps(&mut scn.out);
         all.extend(scn.out);
-        let _ = std::fs::remove_dir_all(&dir); let _ = std::fs::remove_dir_all(Path::new(base).join(format!("obs{}.xlog", k)));
+        for tag in ["", "t"] { let _ = std::fs::remove_dir_all(Path::new(base).join(format!("obs{}{}", k, tag))); let _ = std::fs::remove_dir_all(Path::new(base).join(format!("obs{}{}.xlog", k, tag))); }
     }
     all
 }
